@@ -11,7 +11,7 @@ from vt.mon import contracts
 PROP = 'C01'
 TITLE = 'DFA/NFA acceptance and epsilon closure'
 SHARDS = {'quick': 8, 'thorough': 32}
-TIMEOUT = {'quick': 600, 'thorough': 3000}
+TIMEOUT = {'quick': 420, 'thorough': 3000}
 REQUIRED = ['dfa_accepts_word', 'nfa_accepts_word', 'epsilon_closure', 'NFA.E']
 EXHAUSTIVE = {'quick': False, 'thorough': False}
 EXHAUSTIVE_NOTE = ('complete enumeration of all total DFAs with <=3 states over <=2 symbols and of all NFAs with <=2 states '
